@@ -245,6 +245,7 @@ recfunc csum((a (Array Int Real)) (n Int)) Real := (ite (<= n 0) 0.0 (+ (@csum a
 
 func aggregate
   props C15
+  requires ctx != nil && len(ctx.labels) == len(ctx.rows)
   atreturn every-row-in-scope-is-looked-at: $done1
   option assumed_frame
   atreturn count: name == "COUNT" ==> result == ite(star, boxof(float64(cntRows), float64), boxof(float64(cntNonNull), float64))
@@ -332,7 +333,7 @@ func fieldAndSymbol
 func evalNav
   props C15
   option assumed_frame
-  requires ctx != nil
+  requires ctx != nil && len(ctx.labels) == len(ctx.rows)
   observe pos := positionalField
   observe fe := fromEndField
   observe agg := aggregate
